@@ -72,3 +72,38 @@ def _drill_text(prop, case, f):
     if f.get("kind") == "drill_keys_merged" and f.get("pkind") == "pstr_num":
         return True
     return False
+
+
+@pred("not-in-filter-prunes-when-a-chunk-bound-is-listed")
+def _not_in(prop, case, f):
+    # api.filter_not_in returns True (prune) as soon as the chunk's min OR max is in the list; sound only when min == max
+    if f.get("kind") == "lattice_unsound_prune" and f.get("func") == "filter_not_in":
+        vals, vmin, vmax = f["args"]
+        return (vmin in vals) or (vmax in vals)
+    if f.get("kind") == "unsound_decision" and f.get("func") == "filter_out_stats" and f.get("op") == "not in":
+        return bool(f.get("bound_in_list"))
+    return False
+
+
+@pred("in-filter-tz-aware-constants-never-equal-naive-statistics")
+def _in_tz(prop, case, f):
+    # statistics of a tz-aware column decode to naive datetime64; `vmax not in values` with tz-aware Timestamps is always True
+    if f.get("kind") != "unsound_decision" or f.get("op") not in ("in",) or f.get("func") != "filter_out_stats":
+        return False
+    dt = f.get("col_dtype", "")
+    return dt.startswith("datetime64[") and "," in dt and any("tz=" in str(c) for c in (f.get("const") or []))
+
+
+@pred("string-bound-comparison-ignores-trailing-nul")
+def _nul(prop, case, f):
+    # converted UTF8 statistics are pandas StringArray / numpy str: comparison with a constant ignores trailing NUL characters
+    if f.get("kind") != "unsound_decision" or f.get("func") != "filter_out_stats":
+        return False
+    c = f.get("const")
+    if f.get("col_dtype") not in ("object", "str", "category"):
+        return False
+    if isinstance(c, list):
+        # a listed 'x\x00' is treated as equal to the bound 'x'
+        bounds = {f.get("chunk_min"), f.get("chunk_max")}
+        return any(isinstance(e, str) and e.startswith("str:") and e.endswith("\\x00'") and repr(eval(e[4:]).rstrip("\x00")) in bounds for e in c)
+    return isinstance(c, str) and c.startswith("str:") and c.endswith("\\x00'")
